@@ -2,6 +2,7 @@ import CfrVerif.Proofs.Dist
 import CfrVerif.Model.Named
 import CfrVerif.Model.Vanilla
 import CfrVerif.Model.External
+import CfrVerif.Props.C09
 /-!
 # C10 — sampling follows the declared distributions and is shared per chance infoset
 
@@ -247,12 +248,110 @@ def VDrawOk (c : VCtx α) (r : DrawRec α) : Prop :=
   r.kind = 0 ∧ r.pass = c.pass ∧ r.weights = c.ch.getD r.id [] ∧
     r.result = c.draw 0 r.id c.pass r.weights
 
+/-- the relation behind `vrec_log` -/
+def VLogRel (c : VCtx α) (d d' : DrawSt α) : Prop :=
+  ∃ new, d'.log = new ++ d.log ∧ (∀ r ∈ new, VDrawOk c r) ∧ (c.sampled = false → new = [])
+
+theorem VLogRel.refl (c : VCtx α) (d : DrawSt α) : VLogRel c d d :=
+  ⟨[], rfl, fun _ h => absurd h List.not_mem_nil, fun _ => rfl⟩
+
+theorem VLogRel.trans (c : VCtx α) (a b e : DrawSt α) (h1 : VLogRel c a b) (h2 : VLogRel c b e) :
+    VLogRel c a e := by
+  obtain ⟨n1, l1, o1, f1⟩ := h1
+  obtain ⟨n2, l2, o2, f2⟩ := h2
+  refine ⟨n2 ++ n1, ?_, ?_, ?_⟩
+  · rw [l2, l1, List.append_assoc]
+  · intro r hr
+    rcases List.mem_append.mp hr with h | h
+    · exact o2 r h
+    · exact o1 r h
+  · intro h; rw [f1 h, f2 h]; rfl
+
+theorem VLogRel.step (c : VCtx α) (hs : c.sampled = true) (i : Nat) (d : DrawSt α) :
+    VLogRel c d (sampleChance c.draw c.pass (c.ch.getD i []) i d).2 := by
+  cases h : assocGet d.chance i with
+  | some k => rw [sampleChance_cached _ _ _ _ k d h]; exact VLogRel.refl c d
+  | none =>
+    refine ⟨[⟨0, i, c.pass, c.ch.getD i [], c.draw 0 i c.pass (c.ch.getD i [])⟩], ?_, ?_, ?_⟩
+    · rw [(sampleChance_fresh _ _ _ _ d h).2]; rfl
+    · intro r hr
+      rw [List.mem_singleton] at hr
+      subst hr
+      exact ⟨rfl, rfl, rfl, rfl⟩
+    · intro hf; rw [hs] at hf; exact absurd hf (by decide)
+
 /-- the log only grows, and every entry a vanilla traversal adds is a chance draw with the
 declared weights; the unsampled method adds nothing at all -/
 theorem vrec_log (c : VCtx α) (n : Node α) (pc p1 p2 : α) (d : DrawSt α) :
     ∃ new, (vrec c n pc p1 p2 d).2.2.log = new ++ d.log ∧ (∀ r ∈ new, VDrawOk c r) ∧
-      (c.sampled = false → new = []) := by
-  sorry
+      (c.sampled = false → new = []) :=
+  vrec_rel c (VLogRel c) (VLogRel.refl c) (VLogRel.trans c) (VLogRel.step c) n pc p1 p2 d
+
+/-- the relation behind `vrec_one_draw_per_infoset` (with the extra clause that makes it
+transitive: everything drawn is cached afterwards) -/
+def VOneRel (d d' : DrawSt α) : Prop :=
+  ∃ new, d'.log = new ++ d.log ∧ (new.map (·.id)).Nodup ∧
+    (∀ r ∈ new, assocGet d.chance r.id = none) ∧
+    (∀ r ∈ new, ∃ k, assocGet d'.chance r.id = some k) ∧
+    (∀ i k, assocGet d.chance i = some k → assocGet d'.chance i = some k)
+
+theorem VOneRel.refl (d : DrawSt α) : VOneRel d d :=
+  ⟨[], rfl, List.nodup_nil, fun _ h => absurd h List.not_mem_nil,
+    fun _ h => absurd h List.not_mem_nil, fun _ _ h => h⟩
+
+theorem VOneRel.trans (a b e : DrawSt α) (h1 : VOneRel a b) (h2 : VOneRel b e) : VOneRel a e := by
+  obtain ⟨n1, l1, nd1, fr1, ca1, pr1⟩ := h1
+  obtain ⟨n2, l2, nd2, fr2, ca2, pr2⟩ := h2
+  refine ⟨n2 ++ n1, ?_, ?_, ?_, ?_, ?_⟩
+  · rw [l2, l1, List.append_assoc]
+  · rw [List.map_append, List.nodup_append]
+    refine ⟨nd2, nd1, ?_⟩
+    intro x hx y hy hxy
+    obtain ⟨r2, hr2, rfl⟩ := List.mem_map.mp hx
+    obtain ⟨r1, hr1, rfl⟩ := List.mem_map.mp hy
+    obtain ⟨k, hk⟩ := ca1 r1 hr1
+    have hnone := fr2 r2 hr2
+    have hxy' : r2.id = r1.id := hxy
+    rw [hxy', hk] at hnone
+    exact absurd hnone (by simp)
+  · intro r hr
+    rcases List.mem_append.mp hr with h | h
+    · cases hc : assocGet a.chance r.id with
+      | none => rfl
+      | some k =>
+        have := pr1 _ _ hc
+        rw [fr2 r h] at this
+        exact absurd this (by simp)
+    · exact fr1 r h
+  · intro r hr
+    rcases List.mem_append.mp hr with h | h
+    · exact ca2 r h
+    · obtain ⟨k, hk⟩ := ca1 r h
+      exact ⟨k, pr2 _ _ hk⟩
+  · intro i k h; exact pr2 _ _ (pr1 _ _ h)
+
+theorem VOneRel.step (draw : DrawFn α) (pass : Nat) (probs : List α) (i : Nat) (d : DrawSt α) :
+    VOneRel d (sampleChance draw pass probs i d).2 := by
+  cases h : assocGet d.chance i with
+  | some k => rw [sampleChance_cached _ _ _ _ k d h]; exact VOneRel.refl d
+  | none =>
+    refine ⟨[⟨0, i, pass, probs, draw 0 i pass probs⟩], ?_, ?_, ?_, ?_, ?_⟩
+    · rw [(sampleChance_fresh _ _ _ _ d h).2]; rfl
+    · simp
+    · intro r hr
+      rw [List.mem_singleton] at hr
+      subst hr
+      exact h
+    · intro r hr
+      rw [List.mem_singleton] at hr
+      subst hr
+      rw [sampleChance_fresh_chance _ _ _ _ d h, assocGet_cons]
+      exact ⟨_, if_pos rfl⟩
+    · intro j k hj
+      rw [sampleChance_fresh_chance _ _ _ _ d h, assocGet_cons]
+      by_cases hij : i = j
+      · subst hij; rw [h] at hj; exact absurd hj (by simp)
+      · rw [if_neg hij]; exact hj
 
 /-- **one draw per chance infoset and pass**: the infosets drawn by a traversal are pairwise
 distinct and none of them had a cached sample before; cached samples are never changed -/
@@ -260,17 +359,58 @@ theorem vrec_one_draw_per_infoset (c : VCtx α) (n : Node α) (pc p1 p2 : α) (d
     ∃ new, (vrec c n pc p1 p2 d).2.2.log = new ++ d.log ∧ (new.map (·.id)).Nodup ∧
       (∀ r ∈ new, assocGet d.chance r.id = none) ∧
       (∀ i k, assocGet d.chance i = some k → assocGet (vrec c n pc p1 p2 d).2.2.chance i = some k) := by
-  sorry
+  obtain ⟨new, h1, h2, h3, -, h5⟩ := vrec_rel c VOneRel VOneRel.refl VOneRel.trans
+    (fun _ i d => VOneRel.step c.draw c.pass (c.ch.getD i []) i d) n pc p1 p2 d
+  exact ⟨new, h1, h2, h3, h5⟩
+
+/-- a property of the draw log that every iteration preserves holds for the log a solve returns -/
+theorem solveLoop_log_inv (step : IterFn α) (thr : Option (Ext α)) (P : List (DrawRec α) → Prop)
+    (hstep : ∀ it s log, P log → P (step it s log).2.2.2) :
+    ∀ (n it : Nat) (s : SolveSt α) (r1 r2 : Ext α) (log : List (DrawRec α)), P log →
+      P (solveLoop step thr n it s r1 r2 log).log := by
+  intro n
+  induction n with
+  | zero => intro it s r1 r2 log h; simpa only [solveLoop] using h
+  | succ n ih =>
+    intro it s r1 r2 log h
+    rw [solveLoop_succ]
+    split_ifs with hb
+    · exact hstep it s log h
+    · exact ih _ _ _ _ _ (hstep it s log h)
+
+/-- the log one vanilla iteration returns is the log of its traversal -/
+theorem vanillaIter_log (g : Game α) (sampled : Bool) (p : RegretParams α) (draw : DrawFn α)
+    (it : Nat) (s : SolveSt α) (log : List (DrawRec α)) :
+    (vanillaIter g sampled p draw it s log).2.2.2
+      = (vrec ⟨g.chance, sampled, s.strat, draw, it - 1⟩ g.root 1 1 1 { log := log }).2.2.log := by
+  simp only [vanillaIter]
 
 /-- **the unsampled method makes no random draws** -/
 theorem full_draws_nothing (g : Game α) (p : RegretParams α) (draw : DrawFn α) (T : Nat)
     (thr : Option (Ext α)) : (solveVanillaSingle g false p draw T thr).log = [] := by
-  sorry
+  unfold solveVanillaSingle solveWith
+  refine solveLoop_log_inv _ thr (fun log => log = []) ?_ T 1 _ _ _ [] rfl
+  intro it s log hlog
+  rw [vanillaIter_log]
+  obtain ⟨new, h1, -, h3⟩ :=
+    vrec_log ⟨g.chance, false, s.strat, draw, it - 1⟩ g.root 1 1 1 { log := log }
+  rw [h1, h3 rfl, hlog]; rfl
 
 /-- **the chance-sampled method never samples player actions**: every logged draw is of kind `0` -/
 theorem sampled_draws_only_chance (g : Game α) (p : RegretParams α) (draw : DrawFn α) (T : Nat)
     (thr : Option (Ext α)) : ∀ r ∈ (solveVanillaSingle g true p draw T thr).log, r.kind = 0 := by
-  sorry
+  unfold solveVanillaSingle solveWith
+  refine solveLoop_log_inv _ thr (fun log => ∀ r ∈ log, r.kind = 0) ?_ T 1 _ _ _ []
+    (fun _ h => absurd h List.not_mem_nil)
+  intro it s log hlog
+  rw [vanillaIter_log]
+  obtain ⟨new, h1, h2, -⟩ :=
+    vrec_log ⟨g.chance, true, s.strat, draw, it - 1⟩ g.root 1 1 1 { log := log }
+  rw [h1]
+  intro r hr
+  rcases List.mem_append.mp hr with h | h
+  · exact (h2 r h).1
+  · exact hlog r h
 
 /-- a well-formed log entry of an external-sampling pass: a chance draw with the declared
 probabilities, or a draw at an infoset of the *non-updating* player from that player's current
@@ -281,10 +421,100 @@ def EDrawOk (c : ECtx α) (r : DrawRec α) : Prop :=
   (r.kind = (if c.first then 2 else 1) ∧ r.pass = c.playerPass ∧
       r.weights = c.strat (!c.first) r.id ∧ r.result = c.draw r.kind r.id c.playerPass r.weights)
 
+mutual
+theorem erec_rel (c : ECtx α) (R : DrawSt α → DrawSt α → Prop) (hr : ∀ d, R d d)
+    (ht : ∀ a b e, R a b → R b e → R a e)
+    (hs : ∀ i d, R d (sampleChance c.draw c.chancePass (c.ch.getD i []) i d).2)
+    (hp : ∀ one, ¬ (one == c.first) = true → ∀ i d,
+      R d (samplePlayer c.draw (if one then 1 else 2) c.playerPass (c.strat one i) i d).2) :
+    ∀ (n : Node α) (d : DrawSt α), R d (erec c n d).2.2
+  | .term p, d => by simp only [erec]; exact hr d
+  | .chance i ks, d => by
+    simp only [erec]
+    exact ht _ _ _ (hs i d) (erecNth_rel c R hr ht hs hp ks _ _)
+  | .player one i ks, d => by
+    simp only [erec]
+    by_cases h : (one == c.first) = true
+    · rw [if_pos h]
+      exact erecActs_rel c R hr ht hs hp one i _ ks d 0 0
+    · rw [if_neg h]
+      exact ht _ _ _ (hp one h i d) (erecNth_rel c R hr ht hs hp ks _ _)
+theorem erecNth_rel (c : ECtx α) (R : DrawSt α → DrawSt α → Prop) (hr : ∀ d, R d d)
+    (ht : ∀ a b e, R a b → R b e → R a e)
+    (hs : ∀ i d, R d (sampleChance c.draw c.chancePass (c.ch.getD i []) i d).2)
+    (hp : ∀ one, ¬ (one == c.first) = true → ∀ i d,
+      R d (samplePlayer c.draw (if one then 1 else 2) c.playerPass (c.strat one i) i d).2) :
+    ∀ (ks : List (Node α)) (k : Nat) (d : DrawSt α), R d (erecNth c ks k d).2.2
+  | [], _, d => by simp only [erecNth]; exact hr d
+  | k :: _, 0, d => by simp only [erecNth]; exact erec_rel c R hr ht hs hp k d
+  | _ :: ks, n + 1, d => by simp only [erecNth]; exact erecNth_rel c R hr ht hs hp ks n d
+theorem erecActs_rel (c : ECtx α) (R : DrawSt α → DrawSt α → Prop) (hr : ∀ d, R d d)
+    (ht : ∀ a b e, R a b → R b e → R a e)
+    (hs : ∀ i d, R d (sampleChance c.draw c.chancePass (c.ch.getD i []) i d).2)
+    (hp : ∀ one, ¬ (one == c.first) = true → ∀ i d,
+      R d (samplePlayer c.draw (if one then 1 else 2) c.playerPass (c.strat one i) i d).2)
+    (one : Bool) (i : Nat) :
+    ∀ (σ : List α) (ks : List (Node α)) (d : DrawSt α) (a : Nat) (ex : α),
+      R d (erecActs c one i σ ks d a ex).2.2
+  | s :: σ, k :: ks, d, a, ex => by
+    simp only [erecActs]
+    exact ht _ _ _ (erec_rel c R hr ht hs hp k d) (erecActs_rel c R hr ht hs hp one i σ ks _ _ _)
+  | [], _, d, _, _ => by simp only [erecActs]; exact hr d
+  | _ :: _, [], d, _, _ => by simp only [erecActs]; exact hr d
+end
+
+/-- the relation behind `erec_log` -/
+def ELogRel (c : ECtx α) (d d' : DrawSt α) : Prop :=
+  ∃ new, d'.log = new ++ d.log ∧ ∀ r ∈ new, EDrawOk c r
+
+theorem ELogRel.refl (c : ECtx α) (d : DrawSt α) : ELogRel c d d :=
+  ⟨[], rfl, fun _ h => absurd h List.not_mem_nil⟩
+
+theorem ELogRel.trans (c : ECtx α) (a b e : DrawSt α) (h1 : ELogRel c a b) (h2 : ELogRel c b e) :
+    ELogRel c a e := by
+  obtain ⟨n1, l1, o1⟩ := h1
+  obtain ⟨n2, l2, o2⟩ := h2
+  refine ⟨n2 ++ n1, ?_, ?_⟩
+  · rw [l2, l1, List.append_assoc]
+  · intro r hr
+    rcases List.mem_append.mp hr with h | h
+    · exact o2 r h
+    · exact o1 r h
+
+theorem ELogRel.stepChance (c : ECtx α) (i : Nat) (d : DrawSt α) :
+    ELogRel c d (sampleChance c.draw c.chancePass (c.ch.getD i []) i d).2 := by
+  cases h : assocGet d.chance i with
+  | some k => rw [sampleChance_cached _ _ _ _ k d h]; exact ELogRel.refl c d
+  | none =>
+    refine ⟨[⟨0, i, c.chancePass, c.ch.getD i [], c.draw 0 i c.chancePass (c.ch.getD i [])⟩],
+      ?_, ?_⟩
+    · rw [(sampleChance_fresh _ _ _ _ d h).2]; rfl
+    · intro r hr
+      rw [List.mem_singleton] at hr
+      subst hr
+      exact Or.inl ⟨rfl, rfl, rfl, rfl⟩
+
+theorem ELogRel.stepPlayer (c : ECtx α) (one : Bool) (hne : ¬ (one == c.first) = true) (i : Nat)
+    (d : DrawSt α) :
+    ELogRel c d (samplePlayer c.draw (if one then 1 else 2) c.playerPass (c.strat one i) i d).2 := by
+  cases h : assocGet d.player i with
+  | some k => rw [samplePlayer_cached _ _ _ _ _ k d h]; exact ELogRel.refl c d
+  | none =>
+    refine ⟨[⟨if one then 1 else 2, i, c.playerPass, c.strat one i,
+      c.draw (if one then 1 else 2) i c.playerPass (c.strat one i)⟩], ?_, ?_⟩
+    · rw [samplePlayer_fresh _ _ _ _ _ d h]; rfl
+    · intro r hr
+      rw [List.mem_singleton] at hr
+      subst hr
+      refine Or.inr ⟨?_, rfl, ?_, rfl⟩
+      · cases one <;> cases hf : c.first <;> simp_all
+      · cases one <;> cases hf : c.first <;> simp_all
+
 /-- every entry an external-sampling pass adds to the log is well formed -/
 theorem erec_log (c : ECtx α) (n : Node α) (d : DrawSt α) :
-    ∃ new, (erec c n d).2.2.log = new ++ d.log ∧ ∀ r ∈ new, EDrawOk c r := by
-  sorry
+    ∃ new, (erec c n d).2.2.log = new ++ d.log ∧ ∀ r ∈ new, EDrawOk c r :=
+  erec_rel c (ELogRel c) (ELogRel.refl c) (ELogRel.trans c) (ELogRel.stepChance c)
+    (ELogRel.stepPlayer c) n d
 
 end Draws
 end Cfr
